@@ -422,21 +422,20 @@ def check_from_registry(chk, prog, cfg, rule="R1.4"):
     KEYS = [symrun.struct(prog, USYM, "k%d" % i_, id=S_("id%d" % i_)) for i_ in range(3)]
     VALS = [S_("ty%d" % i_) for i_ in range(3)]
 
+    # the registry holds the ordered table [(k0, ty0), (k1, ty1), (k2, ty2)]; how the conversion reaches it (types(), a consuming helper, the field
+    # itself) is its own business -- crate-local accessors are interpreted
+    REGV = symrun.struct(prog, REG, "registry", types=("map", tuple(zip(KEYS, VALS))))
+
     class FR(symrun.Run):
-        def handler(self, name, args, t):
-            sp = mir.strip_generics(name)
-            if sp == "scale_info::registry::Registry::types" and len(args) == 1:
-                self.log.append(("types", args[0]))
-                return self.handler("core::iter::traits::collect::IntoIterator::into_iter", [("vec", tuple(("tuple", [k_, v_]) for k_, v_ in zip(KEYS, VALS)))], t)
-            return symrun.Run.handler(self, name, args, t)
+        pass
     r = FR(prog)
     ok = False
     try:
-        v = r.run(cands[0], [S_("registry")])
+        v = r.run(cands[0], [REGV])
         tys = symrun.field(v, "types") if symrun.is_struct(v, PR) else None
         ok = isinstance(tys, tuple) and tys[:1] == ("vec",) and len(tys[1]) == 3 and all(
             symrun.is_struct(x, PT) and symrun.field(x, "id") == S_("id%d" % i_) and symrun.field(x, "ty") == VALS[i_] for i_, x in enumerate(tys[1])) \
-            and [x for x in r.log if x[0] != "push"] == [("types", S_("registry"))]
+            and [x for x in r.log if x[0] != "push"] == []
         detail = "registry.types() = [(k0, ty0), (k1, ty1), (k2, ty2)]  ->  %s" % symrun.show(v)[:260]
     except _ai.Unrecognised as e:
         detail = "cannot interpret: %s" % e
